@@ -85,15 +85,25 @@ package logx
 // backups are ranked by NAME (the names carry the rotation time): when there are more than maxBackups, exactly the
 // len-maxBackups first names - the oldest - are reported, never one of the newest maxBackups
 //@   let globbed = ret(filepath.Glob, 0)
-//@   loop 1 invariant -1 <= rangeindex && files.arr == globbed.arr && files.off == globbed.off && len(files) == len(globbed)
-//@   loop 1 iteration-ensures [oldest-names-beyond-the-backup-limit] has(outdated, at_head(files[rangeindex + 1])) && rangeindex + 1 <= len(files) - r.maxBackups
-//@   ensures [ranked-by-name] ret(filepath.Glob, 1) == nil ==> calls(sort.Strings) == 1 && arg(sort.Strings, 0) == globbed
+// the current log file, which the pattern matches when the delimiter is empty, is filtered out before anything is
+// ranked: it is not a backup and is never reported for deletion
+//@   loop 1 invariant -1 <= rangeindex && rangeindex < len(globbed) && len(backups) <= rangeindex + 1 && forall(i, 0, len(backups), backups[i] != r.filename)
+//@   loop 2 invariant -1 <= rangeindex && len(files) <= len(globbed) && forall(i, 0, len(files), files[i] != r.filename) && !has(outdated, r.filename)
+//@   loop 2 iteration-ensures [oldest-names-beyond-the-backup-limit] has(outdated, at_head(files[rangeindex + 1])) && rangeindex + 1 <= len(files) - r.maxBackups
+//@   loop 3 invariant -1 <= rangeindex && forall(i, 0, len(files), files[i] != r.filename) && !has(outdated, r.filename)
+//@   loop 4 invariant !has(outdated, r.filename) && forall(i, 0, len(result), result[i] != r.filename)
+//@   ensures [ranked-by-name] ret(filepath.Glob, 1) == nil ==> calls(sort.Strings) == 1 && len(arg(sort.Strings, 0)) <= len(globbed)
 //@   ensures [glob-error-reports-nothing] ret(filepath.Glob, 1) != nil ==> result == nil
+//@   replay logx_outdated
+//@   ensures [never-the-current-file] forall(i, 0, len(result), result[i] != r.filename)
 //@ func (*DailyRotateRule).OutdatedFiles
 //@   prop C19
 //@   opaque Errorf
 //@   requires r != nil
 //@   ensures [disabled] r.days <= 0 ==> result == nil && calls(Glob) == 0
+//@   replay logx_outdated
+//@   loop 1 invariant forall(i, 0, len(outdates), outdates[i] != r.filename)
+//@   ensures [never-the-current-file] forall(i, 0, len(result), result[i] != r.filename)
 //@   ensures [boundary-from-now] calls(Format) == 1 ==> calls(time.Now) == 1 && arg(Format, 0) == ret(Add) && arg(Add, 0) == ret(time.Now) && arg(Add, 1) == 0 - 3600000000000 * (24 * r.days) && arg(Format, 1) == dateFormat
 
 // init (opening the log file): the size counter, which decides size-based rotation, starts from the size the
